@@ -256,24 +256,29 @@ def evaluate(case):
 # ----------------------------------------------------------------------------- strategy
 @st.composite
 def frames(draw, max_rows=24, max_geoms=3):
-    n = draw(st.one_of(st.integers(1, 4), st.integers(2, 10), st.integers(1, max_rows)))
+    n = draw(st.one_of(st.integers(1, 4), st.sampled_from(range(2, 11)), st.sampled_from(range(1, max_rows + 1))))
     ng = draw(st.integers(1, max_geoms))
     geoms = []
     for j in range(ng):
         kind = draw(st.sampled_from(model.KINDS))
         subtype = draw(gen.subtypes)
-        dup_rate = draw(st.sampled_from([0, 2, 2, 6]))          # out of 12: share of rows repeating an earlier element
+        spread = draw(st.booleans())
+        miss_rate = draw(st.sampled_from([0, 0, 1, 2]))     # out of 16: share of missing rows, and of empty rows
+        dup_rate = draw(st.sampled_from([0, 2, 2, 6]))          # out of 16: share of rows repeating an earlier element
         els = []
         for _ in range(n):
-            r = draw(st.integers(0, 13))
-            if r == 0:
+            r = draw(st.sampled_from(range(16)))
+            if r < miss_rate:
                 e = None
-            elif r == 1:
+            elif 2 <= r < 2 + miss_rate:
                 e = ([float('nan'), float('nan')] if subtype.startswith('float') else None) if kind == 'point' else []
-            elif r < 2 + dup_rate and els:
-                e = els[draw(st.integers(0, len(els) - 1))]
+            elif 4 <= r < 4 + dup_rate and els:
+                e = els[draw(st.sampled_from(range(len(els))))]
             else:
                 e = gen.no_leafless(draw(gen.any_element(kind, subtype, False, False)))
+                if spread and e:
+                    # spread the rows out so that most distances differ (many non-empty output partitions)
+                    e = model.translate(kind, e, draw(st.sampled_from(range(-40, 41))), draw(st.sampled_from(range(-40, 41))))
             els.append(e)
         geoms.append({'name': f'g{j}', 'kind': kind, 'subtype': subtype, 'elements': els})
     ids = draw(st.permutations(list(range(n)))) if draw(st.booleans()) else list(range(n))
@@ -291,7 +296,7 @@ def frames(draw, max_rows=24, max_geoms=3):
 
 @st.composite
 def partitionings(draw, n, max_parts=5):
-    if draw(st.integers(0, 4)) == 0:
+    if draw(st.sampled_from(range(5))) == 0:
         return {'from_pandas': draw(st.integers(1, max_parts))}
     return draw(gen.partition_splits(n, max_parts))
 
@@ -300,9 +305,10 @@ def partitionings(draw, n, max_parts=5):
 def _case(draw):
     fr = draw(frames())
     n = fr['n']
-    return {'frame': fr, 'presort': draw(st.integers(0, 3)) == 0,
+    return {'frame': fr, 'presort': draw(st.sampled_from(range(4))) == 0,
             'parts_a': draw(partitionings(n)), 'parts_b': draw(partitionings(n)),
-            'npartitions': draw(st.one_of(st.integers(1, 8), st.integers(2, 4))), 'p': draw(st.one_of(st.integers(1, 20), st.integers(1, 4)))}
+            'npartitions': draw(st.one_of(st.sampled_from(range(1, 9)), st.integers(2, 4))),
+            'p': draw(st.one_of(st.sampled_from(range(1, 21)), st.integers(1, 4)))}
 
 
 def strategy(tier):
